@@ -28,5 +28,9 @@ ExpansionFinite_  == Clean("ExpansionFinite", ExpansionFinite(M), Lib * Samples(
 NominalDensityPositive_ == Clean("NominalDensityPositive", NominalDensityPositive(M), Lib * Samples(M, DensityFns, FALSE))
 NominalPseudoDensityPositive_ == Clean("NominalPseudoDensityPositive", NominalPseudoDensityPositive(M), Lib * Samples(M, PseudoFns, FALSE))
 NominalExpansionFinite_ == Clean("NominalExpansionFinite", NominalExpansionFinite(M), Lib * Samples(M, ExpansionFns, FALSE))
+DerivedFinite_    == Clean("DerivedFinite", DerivedFinite(M), Lib * Samples(M, FactorFns \cup ReductionFns, TRUE))
+NominalDerivedFinite_ == Clean("NominalDerivedFinite", NominalDerivedFinite(M), Lib * Samples(M, FactorFns \cup ReductionFns, FALSE))
+UnitsAgree_       == Clean("UnitsAgree", UnitsAgree(M), Lib * SumSeq([r \in 1..Len(M.ranges) |-> IF M.ranges[r].both THEN Len(M.ranges[r].samples) ELSE 0]))
+InstanceIndependent_ == Clean("InstanceIndependent", InstanceIndependent(M), Len(M.instances))
 RangeCovered_     == Clean("RangeCovered", RangeCovered(M), Len(M.ranges))
 ================================================================================================================================
